@@ -2181,3 +2181,151 @@ Theorem C14_tdd_example_exact : forall cap,
 Proof. exact ext3_exact_consequence. Qed.
 Print Assumptions C14_tdd_example_exact.
 
+(** * 18. Cube picking under a node budget (package C14z, theorems C14_pick_xxx)
+
+    [pick_cube_dd_edge] / [pick_cube_dd_set_edge] of the BDD, BCDD and ZBDD rule
+    sets (Mgr/OomPick*.v).  One theorem per family, quantified over the kind
+    ([pkind]), the call ([pcall]) and - for [pick_cube_dd] - every choice function
+    with every state. *)
+From OxiVerif Require Import DD.Pick.
+From OxiVerif Require Import Mgr.OomPick Mgr.OomPickProofs Mgr.OomPickSafe Mgr.OomPickThms Mgr.OomPickExamples.
+
+Theorem C14_pick_never_wrong : forall St choice kind cap s (st : St) k s' st' r,
+  prun_c St choice kind cap s st k = GOk s' st' r ->
+  prun_u St choice kind s st k = Some (s', st', r).
+Proof. exact pick_never_wrong. Qed.
+Print Assumptions C14_pick_never_wrong.
+
+Theorem C14_pick_retry : forall St choice kind cap s (st : St) k su stu ru,
+  prun_u St choice kind s st k = Some (su, stu, ru) -> node_count su <= cap ->
+  prun_c St choice kind cap s st k = GOk su stu ru.
+Proof. exact pick_retry. Qed.
+Print Assumptions C14_pick_retry.
+
+Theorem C14_pick_monotone : forall St choice kind cap cap' s (st : St) k s' st' r, cap <= cap' ->
+  prun_c St choice kind cap s st k = GOk s' st' r ->
+  prun_c St choice kind cap' s st k = GOk s' st' r.
+Proof. exact pick_monotone. Qed.
+Print Assumptions C14_pick_monotone.
+
+Theorem C14_pick_never_wrong_sem : forall St choice kind cap s (st : St) k s' st' r,
+  pinv kind s -> pcall_ok kind s k ->
+  prun_c St choice kind cap s st k = GOk s' st' r ->
+  pinv kind s' /\ extends s s' /\ pintact kind s s' /\ pgood kind s' (fst r) /\
+  pcall_spec St choice kind s st k s' st' r.
+Proof. exact pick_never_wrong_sem. Qed.
+Print Assumptions C14_pick_never_wrong_sem.
+
+Theorem C14_pick_safe : forall St choice kind cap s (st : St) k s' st',
+  pinv kind s -> pcall_ok kind s k ->
+  prun_c St choice kind cap s st k = GOom s' st' ->
+  pinv kind s' /\ extends s s' /\ pintact kind s s' /\
+  node_count s <= node_count s' /\ cap <= node_count s'.
+Proof. exact pick_safe. Qed.
+Print Assumptions C14_pick_safe.
+
+Theorem C14_pick_no_panic : forall St choice kind cap s (st : St) k,
+  pinv kind s -> pcall_ok kind s k ->
+  prun_c St choice kind cap s st k <> GStuck.
+Proof. exact pick_no_panic. Qed.
+Print Assumptions C14_pick_no_panic.
+
+Theorem C14_pick_exact : forall St choice kind cap s (st : St) k,
+  pinv kind s -> pcall_ok kind s k ->
+  exists su stu ru, prun_u St choice kind s st k = Some (su, stu, ru) /\
+    pinv kind su /\ pgood kind su (fst ru) /\ pcall_spec St choice kind s st k su stu ru /\
+    (node_count su <= Nat.max cap (node_count s) ->
+       prun_c St choice kind cap s st k = GOk su stu ru) /\
+    (Nat.max cap (node_count s) < node_count su ->
+       exists s' st', prun_c St choice kind cap s st k = GOom s' st' /\
+         pinv kind s' /\ extends s s' /\ pintact kind s s' /\
+         node_count s <= node_count s' /\ cap <= node_count s').
+Proof. exact pick_exact. Qed.
+Print Assumptions C14_pick_exact.
+
+Theorem C14_pick_intact_meaning : forall kind s s', pintact kind s s' ->
+  s_handles s' = s_handles s /\
+  s_v2l s' = s_v2l s /\ s_l2v s' = s_l2v s /\ s_terms s' = s_terms s /\
+  (forall id nd, find_node s id = Some nd -> find_node s' id = Some nd) /\
+  (forall h, In h (s_handles s) -> forall c0, sem_edge s' (snd h) c0 = sem_edge s (snd h) c0) /\
+  (forall id, find_node s id = None -> ~ reachable s' (handle_refs s') (RN id)) /\
+  (forall r, reachable s' (handle_refs s') r <-> reachable s (handle_refs s) r).
+Proof. exact pick_intact_meaning. Qed.
+Print Assumptions C14_pick_intact_meaning.
+
+Theorem C14_pick_inv_b_spec : forall kind s, pinv_b kind s = true <-> pinv kind s.
+Proof. exact pinv_b_spec. Qed.
+Print Assumptions C14_pick_inv_b_spec.
+
+Theorem C14_pick_call_ok_decided : forall kind s k, pcall_ok_b kind s k = true <-> pcall_ok kind s k.
+Proof. exact pcall_ok_b_spec. Qed.
+Print Assumptions C14_pick_call_ok_decided.
+
+Theorem C14_pick_nc_exact : forall kind cap s m k, pinv_b kind s = true -> pcall_ok_b kind s k = true ->
+  prun_c unit (mask_choice m) kind cap s tt k <> GStuck /\
+  exists su ru, prun_u unit (mask_choice m) kind s tt k = Some (su, tt, ru) /\
+    pinv_b kind su = true /\ pedge_ok_b kind su (fst ru) = true /\
+    pcall_spec unit (mask_choice m) kind s tt k su tt ru /\
+    (node_count su <= Nat.max cap (node_count s) ->
+       prun_c unit (mask_choice m) kind cap s tt k = GOk su tt ru) /\
+    (Nat.max cap (node_count s) < node_count su ->
+       exists s', prun_c unit (mask_choice m) kind cap s tt k = GOom s' tt /\
+         pinv_b kind s' = true /\ extends s s' /\ pintact kind s s' /\
+         node_count s <= node_count s' /\ cap <= node_count s').
+Proof. exact pick_nc_exact. Qed.
+Print Assumptions C14_pick_nc_exact.
+
+Theorem C14_pick_nc_eq : forall kind cap s m e set,
+  pick_dd_nc kind cap s m e = prun_c unit (mask_choice m) kind cap s tt (PKDd e) /\
+  pick_dd_set_nc kind cap s e set = prun_c unit (mask_choice (fun _ => false)) kind cap s tt (PKSet e set) /\
+  pick_dd_unc kind s m e = prun_u unit (mask_choice m) kind s tt (PKDd e) /\
+  pick_dd_set_unc kind s e set = prun_u unit (mask_choice (fun _ => false)) kind s tt (PKSet e set).
+Proof. exact pick_nc_eq. Qed.
+Print Assumptions C14_pick_nc_eq.
+
+(** non-vacuity *)
+Theorem C14_pick_example_hyps :
+  ((pinv PBdd exp3 /\ node_count exp3 = 8) /\
+   (pinv PBcdd exc3 /\ node_count exc3 = 6) /\
+   (pinv PZbdd exz8 /\ node_count exz8 = 8)) /\
+  ((pcall_ok PBdd exp3 (PKDd (E (RN 8))) /\ pcall_ok PBdd exp3 (PKSet (E (RN 8)) (E (RT 1))) /\
+    pcall_ok PBdd exp3 (PKSet (E (RN 8)) (E (RN 5))) /\ pcall_ok PBdd exp3 (PKSet (E (RN 6)) (E (RN 4)))) /\
+   (pcall_ok PBcdd exc3 (PKDd n6) /\ pcall_ok PBcdd exc3 (PKSet n6 (ce 4))) /\
+   (pcall_ok PZbdd exz8 (PKDd (E (RN 8))) /\ pcall_ok PZbdd exz8 (PKDd (E (RN 3))) /\
+    pcall_ok PZbdd exz8 (PKSet (E (RN 8)) (E (RN 7))) /\ pcall_ok PZbdd exz8 (PKSet (E (RN 8)) (E (RT 1))))).
+Proof. exact (conj pick_ex_inv pick_ex_calls_ok). Qed.
+Print Assumptions C14_pick_example_hyps.
+
+Theorem C14_pick_example_garbage :
+  match pick_dd_nc PBdd 9 exp3 (fun _ => false) (E (RN 8)) with
+  | GOom s' _ =>
+      s_handles s' = s_handles exp3 /\ pinv_b PBdd s' = true /\ node_count s' = 9 /\
+      forallb (fun p => match find_node s' (fst p) with
+                        | Some nd => same_node nd (snd p) | None => false end)
+              (PositiveMap.elements (s_nodes exp3)) = true
+  | _ => False
+  end.
+Proof. exact exp3_dd_garbage. Qed.
+Print Assumptions C14_pick_example_garbage.
+
+Theorem C14_pick_example_exact : forall cap,
+  ((10 <= cap -> gres_code (pick_dd_nc PBdd cap exp3 (fun _ => false) (E (RN 8))) = 0) /\
+   (cap < 10 -> exists s', pick_dd_nc PBdd cap exp3 (fun _ => false) (E (RN 8)) = GOom s' tt /\
+      pinv PBdd s' /\ extends exp3 s' /\ pintact PBdd exp3 s' /\ cap <= node_count s')) /\
+  ((10 <= cap -> gres_code (pick_dd_set_nc PBdd cap exp3 (E (RN 8)) (E (RT 1))) = 0) /\
+   (cap < 10 -> exists s', pick_dd_set_nc PBdd cap exp3 (E (RN 8)) (E (RT 1)) = GOom s' tt /\
+      pinv PBdd s' /\ extends exp3 s' /\ pintact PBdd exp3 s' /\ cap <= node_count s')) /\
+  ((8 <= cap -> gres_code (pick_dd_nc PBcdd cap exc3 (fun l => Nat.eqb l 1) n6) = 0) /\
+   (cap < 8 -> exists s', pick_dd_nc PBcdd cap exc3 (fun l => Nat.eqb l 1) n6 = GOom s' tt /\
+      pinv PBcdd s' /\ extends exc3 s' /\ pintact PBcdd exc3 s' /\ cap <= node_count s')) /\
+  ((8 <= cap -> gres_code (pick_dd_set_nc PBcdd cap exc3 n6 (ce 4)) = 0) /\
+   (cap < 8 -> exists s', pick_dd_set_nc PBcdd cap exc3 n6 (ce 4) = GOom s' tt /\
+      pinv PBcdd s' /\ extends exc3 s' /\ pintact PBcdd exc3 s' /\ cap <= node_count s')) /\
+  ((10 <= cap -> gres_code (pick_dd_nc PZbdd cap exz8 (fun _ => true) (E (RN 8))) = 0) /\
+   (cap < 10 -> exists s', pick_dd_nc PZbdd cap exz8 (fun _ => true) (E (RN 8)) = GOom s' tt /\
+      pinv PZbdd s' /\ extends exz8 s' /\ pintact PZbdd exz8 s' /\ cap <= node_count s')) /\
+  ((10 <= cap -> gres_code (pick_dd_set_nc PZbdd cap exz8 (E (RN 8)) (E (RN 7))) = 0) /\
+   (cap < 10 -> exists s', pick_dd_set_nc PZbdd cap exz8 (E (RN 8)) (E (RN 7)) = GOom s' tt /\
+      pinv PZbdd s' /\ extends exz8 s' /\ pintact PZbdd exz8 s' /\ cap <= node_count s')).
+Proof. exact pick_ex_exact. Qed.
+Print Assumptions C14_pick_example_exact.
